@@ -23,7 +23,12 @@
 (* schedule handed to it.  With GateGrain = FALSE every interleaving of    *)
 (* the instructions is explored.                                           *)
 (*                                                                         *)
-(* Templates (tpl): kv, ann, lm, ver, nj, nl, mut, cli.                     *)
+(* Templates (tpl): kv, ann, lm, ver, nj, nl, mut, cli, mcli, vox, annsync, wc *)
+(* (wc: three requests, explored with NProc = 3 and Only).  Work a request  *)
+(* leaves to other goroutines (block writers, the index goroutine of a      *)
+(* voxel write, the sync handler of a subscriber) is part of its program:   *)
+(* the harness schedules those goroutines as the request's own.  An         *)
+(* instruction "dolk" is one step that needs locks computed from the state. *)
 (* Observations (Obs) only use records, sets, integers and strings so that *)
 (* their JSON form can be compared order-insensitively.                    *)
 (***************************************************************************)
@@ -44,9 +49,16 @@ Gate(s) == [i |-> "gate", site |-> s]
 Acq(L)  == [i |-> "acq", l |-> L]
 Rel(L)  == [i |-> "rel", l |-> L]
 Do(a)   == [i |-> "do", a |-> a]
+Dolk(a) == [i |-> "dolk", a |-> a]   \* one step that takes and releases the locks DynLocks names
 Upd(L, new) == new @@ L
 Out(S, L, ok) == [st |-> S, loc |-> L, ok |-> ok]
 Max(a, b) == IF a > b THEN a ELSE b
+\* The "code" programs follow the code as it is after these repairs (known_findings.json, status fixed);
+\* with a switch FALSE the program is the one the code had before (used to reproduce the finding).
+McMergeRereads == TRUE       \* merge-index-delta-lost
+AsHandlersLocked == TRUE     \* annotation-sync-handlers-race-element-edits
+WcAdmissionLocked == TRUE    \* commit-overtakes-admitted-mutation
+AnnBlocksLocked == TRUE      \* annotation-post-blocks-unlocked
 RECURSIVE SumSeq(_)
 SumSeq(s) == IF s = <<>> THEN 0 ELSE Head(s) + SumSeq(Tail(s))
 
@@ -78,7 +90,10 @@ AnnCatalog == <<
    [k |-> "del",  pos |-> 2, who |-> 0],
    [k |-> "move", from |-> 1, to |-> 7, who |-> 0],
    [k |-> "move", from |-> 2, to |-> 105, who |-> 0],
-   [k |-> "del",  pos |-> 104, who |-> 0] >>
+   [k |-> "del",  pos |-> 104, who |-> 0],
+   \* POST blocks: the element list of block b is replaced wholesale (the tag lists are not touched: they
+   \* are rebuilt by a later reload)
+   [k |-> "blocks", b |-> 1, elems |-> {[pos |-> 9, tags |-> {}]}, who |-> 0] >>
 
 ElemAt(S, pos) == {e \in S : e.pos = pos}
 AddElems(S, E) == {e \in S : ~\E n \in E : n.pos = e.pos} \cup E
@@ -107,6 +122,7 @@ MoveTags(S, e, to, curT) ==
                                          ELSE S.tg[t]]]
 AnnApply(r, S) ==
     CASE r.k = "post" -> Out(PostWrite(S, PostElems(r), S.blk, S.blk, S.tg), <<>>, TRUE)
+      [] r.k = "blocks" -> Out([S EXCEPT !.blk[r.b] = PostElems(r)], <<>>, TRUE)
       [] r.k = "del"  -> LET b == BlockOf(r.pos) IN
                          IF ElemAt(S.blk[b], r.pos) = {} THEN Out(S, <<>>, FALSE)
                          ELSE LET e == CHOOSE x \in ElemAt(S.blk[b], r.pos) : TRUE
@@ -121,6 +137,7 @@ AnnExec(a, r, S, L) ==
       [] a = "p_rd2" -> Out(S, Upd(L, [cur2 |-> S.blk]), TRUE)
       [] a = "p_rdT" -> Out(S, Upd(L, [curT |-> S.tg]), TRUE)
       [] a = "p_wr"  -> Out(PostWrite(S, PostElems(r), L.cur1, L.cur2, L.curT), L, TRUE)
+      [] a = "b_wr"  -> Out([S EXCEPT !.blk[r.b] = PostElems(r)], L, TRUE)
       [] a = "d_rd"  -> LET cur == S.blk[BlockOf(r.pos)] IN
                         IF ElemAt(cur, r.pos) = {} THEN Out(S, L, FALSE)
                         ELSE Out(S, Upd(L, [cur |-> cur, e |-> CHOOSE x \in ElemAt(cur, r.pos) : TRUE]), TRUE)
@@ -140,9 +157,12 @@ AnnBody(r) ==
                             Gate("annotation.DeleteElement.commit"), Do("d_wrT") >>
       [] r.k = "move" -> << Do("m_rd"), Gate("annotation.MoveElement"), Do("m_wrB"), Do("m_rdT"),
                             Gate("annotation.MoveElement.tags"), Do("m_wrT") >>
+      [] r.k = "blocks" -> << Do("b_wr") >>
 \* intended = code since the fix "annotation serializes element edits" (Data.editMu); before it the
 \* instance lock was commented out around the three edits: << Gate("start") >> \o AnnBody(r)
-AnnProg(r) == << Gate("start"), Acq({"ann.editMu"}) >> \o AnnBody(r) \o << Rel({"ann.editMu"}) >>
+\* POST blocks took no lock before the fix "annotation POST blocks takes the edit lock" (AnnBlocksLocked)
+AnnProg(r) == IF r.k = "blocks" /\ Locking = "code" /\ ~AnnBlocksLocked THEN << Gate("start"), Do("b_wr") >>
+              ELSE << Gate("start"), Acq({"ann.editMu"}) >> \o AnnBody(r) \o << Rel({"ann.editMu"}) >>
 AnnObs(S) == [blk |-> {[b |-> b, e |-> S.blk[b]] : b \in AnnBlocks},
               tg  |-> {[t |-> t, e |-> S.tg[t]] : t \in AnnTags}]
 
@@ -301,21 +321,454 @@ CliProg(r) == << Gate("start"), Acq({"idxShard"}), Do("i_rd"), Gate("labelmap.Ch
 CliObs(S) == [cnt |-> {[b |-> b, n |-> S.cnt[b]] : b \in {x \in CliBlocks : S.cnt[x] > 0}}]
 
 -----------------------------------------------------------------------------
+(* Stored body indices as a set of entries [l, s, b, n]: body l holds n voxels of     *)
+(* supervoxel s in block b (templates mcli, vox).                                     *)
+IxOf(I, l) == {e \in I : e.l = l}
+IxSVs(I, l) == {e.s : e \in IxOf(I, l)}
+IxRelabel(E, t) == {[e EXCEPT !.l = t] : e \in E}
+\* labels.Index.ModifyBlocks for one label: ch = set of [s, b, n] changes; only supervoxels the index
+\* already holds (a new index: only the label itself) are touched; a count that would go negative
+\* fails the whole call (nothing is stored)
+CliTouched(cur, l, ch) == {c \in ch : c.s \in (IF cur = {} THEN {l} ELSE {e.s : e \in cur})}
+CliCount(cur, c) == IF \E e \in cur : e.s = c.s /\ e.b = c.b THEN (CHOOSE e \in cur : e.s = c.s /\ e.b = c.b).n ELSE 0
+CliOK(cur, l, ch) == \A c \in CliTouched(cur, l, ch) : CliCount(cur, c) + c.n >= 0
+CliNew(cur, l, ch) ==
+    LET T == CliTouched(cur, l, ch) IN
+    {e \in cur : ~\E c \in T : c.s = e.s /\ c.b = e.b}
+      \cup {[l |-> l, s |-> c.s, b |-> c.b, n |-> CliCount(cur, c) + c.n] : c \in {x \in T : CliCount(cur, x) + x.n > 0}}
+IxObs(I) == I
+MpObs(M) == {[s |-> s, l |-> M[s]] : s \in {x \in DOMAIN M : M[x] # x}}
+
+-----------------------------------------------------------------------------
+(* mcli: a body mutation (merge, cleave) concurrent with labelmap.ChangeLabelIndex —   *)
+(* the index delta a mutating voxel write applies from a background goroutine.  Five   *)
+(* supervoxels, each one solid block (block k holds supervoxel k; block 9 is empty);   *)
+(* body 1 = {1, 2, 3}.                                                                 *)
+McU == 1..5 \cup 201..203
+McPre == << [idx |-> {[l |-> (IF s \in {2, 3} THEN 1 ELSE s), s |-> s, b |-> s, n |-> 4096] : s \in 1..5},
+             mp  |-> [s \in McU |-> IF s \in {2, 3} THEN 1 ELSE s]] >>
+McCatalog == <<
+   [k |-> "merge", t |-> 1, m |-> {4}, who |-> 0],
+   [k |-> "merge", t |-> 4, m |-> {5}, who |-> 0],
+   [k |-> "delta", l |-> 1, s |-> 1, b |-> 1, n |-> -7, who |-> 0],
+   [k |-> "delta", l |-> 4, s |-> 4, b |-> 4, n |-> -5, who |-> 0],
+   [k |-> "delta", l |-> 1, s |-> 2, b |-> 9, n |-> 3, who |-> 0],
+   [k |-> "cleave", b |-> 1, s |-> {2}, who |-> 0],
+   [k |-> "delta", l |-> 5, s |-> 5, b |-> 9, n |-> 11, who |-> 0] >>
+McNew(r) == 200 + r.who
+McMergeOK(S, r) == IxOf(S.idx, r.t) # {} /\ \A m \in r.m : IxOf(S.idx, m) # {}
+McMergeMap(S, r, im) == [S EXCEPT !.mp = [s \in DOMAIN S.mp |-> IF s \in {e.s : e \in im} THEN r.t ELSE S.mp[s]]]
+McMergeTarget(S, r, it, im) == [S EXCEPT !.idx = {e \in S.idx : e.l # r.t} \cup it \cup IxRelabel(im, r.t)]
+McMergeDel(S, r) == [S EXCEPT !.idx = {e \in S.idx : e.l \notin r.m}]
+McCleaveOK(ib, r) == ib # {} /\ r.s \subseteq {e.s : e \in ib} /\ {e.s : e \in ib} \ r.s # {}
+McCleaveIdx(S, r, ib) ==
+    [S EXCEPT !.idx = {e \in S.idx : e.l # r.b} \cup {e \in ib : e.s \notin r.s} \cup IxRelabel({e \in ib : e.s \in r.s}, McNew(r))]
+McCleaveMap(S, r) == [S EXCEPT !.mp = [s \in DOMAIN S.mp |-> IF s \in r.s THEN McNew(r) ELSE S.mp[s]]]
+McCh(r) == {[s |-> r.s, b |-> r.b, n |-> r.n]}
+McApply(r, S) ==
+    CASE r.k = "merge" ->
+           IF ~McMergeOK(S, r) THEN Out(S, <<>>, FALSE)
+           ELSE LET im == UNION {IxOf(S.idx, m) : m \in r.m} IN
+                Out(McMergeDel(McMergeTarget(McMergeMap(S, r, im), r, IxOf(S.idx, r.t), im), r), <<>>, TRUE)
+      [] r.k = "cleave" ->
+           IF ~McCleaveOK(IxOf(S.idx, r.b), r) THEN Out(S, <<>>, FALSE)
+           ELSE Out(McCleaveMap(McCleaveIdx(S, r, IxOf(S.idx, r.b)), r), <<>>, TRUE)
+      [] r.k = "delta" ->
+           LET cur == IxOf(S.idx, r.l) IN
+           IF ~CliOK(cur, r.l, McCh(r)) THEN Out(S, <<>>, FALSE)
+           ELSE Out([S EXCEPT !.idx = {e \in S.idx : e.l # r.l} \cup CliNew(cur, r.l, McCh(r))], <<>>, TRUE)
+McExec(a, r, S, L) ==
+    CASE a = "g_rdM" -> IF \E m \in r.m : IxOf(S.idx, m) = {} THEN Out(S, L, FALSE)
+                        ELSE Out(S, Upd(L, [im |-> UNION {IxOf(S.idx, m) : m \in r.m}]), TRUE)
+      [] a = "g_rdT" -> IF IxOf(S.idx, r.t) = {} THEN Out(S, L, FALSE) ELSE Out(S, Upd(L, [it |-> IxOf(S.idx, r.t)]), TRUE)
+      [] a = "g_wrMap" -> Out(McMergeMap(S, r, L.im), L, TRUE)
+      \* the final read-modify-write of the target and merged indices under their shard locks (since the
+      \* fix "labelmap merge re-reads the indices under their locks"): the indices are read again
+      [] a = "g_rd2" -> Out(S, Upd(L, [im |-> UNION {IxOf(S.idx, m) : m \in r.m}, it |-> IxOf(S.idx, r.t)]), TRUE)
+      [] a = "g_wrT" -> Out(McMergeTarget(S, r, L.it, L.im), L, TRUE)
+      [] a = "g_delM" -> Out(McMergeDel(S, r), L, TRUE)
+      [] a = "c_rd"  -> IF ~McCleaveOK(IxOf(S.idx, r.b), r) THEN Out(S, L, FALSE) ELSE Out(S, Upd(L, [ib |-> IxOf(S.idx, r.b)]), TRUE)
+      [] a = "c_wr"  -> Out(McCleaveIdx(S, r, L.ib), L, TRUE)
+      [] a = "c_wrMap" -> Out(McCleaveMap(S, r), L, TRUE)
+      [] a = "i_rd" -> Out(S, Upd(L, [cur |-> IxOf(S.idx, r.l)]), TRUE)
+      [] a = "i_wr" -> IF ~CliOK(L.cur, r.l, McCh(r)) THEN Out(S, L, FALSE)
+                       ELSE Out([S EXCEPT !.idx = {e \in S.idx : e.l # r.l} \cup CliNew(L.cur, r.l, McCh(r))], L, TRUE)
+McIdxLocks(r) == {IdxLock(l) : l \in r.m \cup {r.t}}
+McProg(r) ==
+    CASE r.k = "merge" ->
+           \* intended: the index locks of every label read or written cover the read-modify-write.
+           \* code: Data.bodyMutMu covers the request (it excludes other body mutations, not the index
+           \* deltas of voxel writes); the indices are validated early and, after the mapping update,
+           \* read again and written back under their shard locks.
+           IF Locking = "intended"
+           THEN << Gate("start"), Acq(McIdxLocks(r)), Do("g_rdM"), Do("g_rdT"), Gate("labelmap.MergeLabels"),
+                   Do("g_wrMap"), Do("g_wrT"), Do("g_delM"), Rel(McIdxLocks(r)) >>
+           ELSE IF McMergeRereads
+           THEN << Gate("start"), Acq({"lm.bodyMutMu"}), Do("g_rdM"), Do("g_rdT"), Gate("labelmap.MergeLabels"),
+                   Do("g_wrMap"), Acq(McIdxLocks(r)), Do("g_rd2"), Do("g_wrT"), Do("g_delM"), Rel(McIdxLocks(r)),
+                   Rel({"lm.bodyMutMu"}) >>
+           ELSE << Gate("start"), Acq({"lm.bodyMutMu"}), Do("g_rdM"), Do("g_rdT"), Gate("labelmap.MergeLabels"),
+                   Do("g_wrMap"), Do("g_wrT"), Do("g_delM"), Rel({"lm.bodyMutMu"}) >>
+      [] r.k = "cleave" ->
+           << Gate("start"), Acq({"lm.bodyMutMu"}), Acq({IdxLock(r.b)}), Do("c_rd"), Gate("labelmap.cleaveIndex"), Do("c_wr"),
+              Rel({IdxLock(r.b)}), Do("c_wrMap"), Rel({"lm.bodyMutMu"}) >>
+      [] r.k = "delta" ->
+           << Gate("start"), Acq({IdxLock(r.l)}), Do("i_rd"), Gate("labelmap.ChangeLabelIndex"), Do("i_wr"), Rel({IdxLock(r.l)}) >>
+McObs(S) == [idx |-> IxObs(S.idx), mp |-> MpObs(S.mp)]
+
+-----------------------------------------------------------------------------
+(* vox: voxel-level mutations of a labelmap over a region geometry.  Three blocks of   *)
+(* 16^3 voxels; regions 1, 2 = the two halves of block 1, region 3 = block 2, regions  *)
+(* 4, 5 = the two halves of block 3.  State: sv[r] the supervoxel stored in the voxels *)
+(* of region r (primary data), mp the mapping supervoxel -> body (identity unless      *)
+(* changed; 0 = split away), idx the STORED body indices (entries [l, s, b, n]), which *)
+(* every request maintains by its own read-modify-write — "no derived index disagrees  *)
+(* with its primary data" is idx = VoxDerived(sv, mp).                                 *)
+(* Labels: 1..4 ingested (supervoxel 1 = regions 1, 2; body 1 = supervoxels 1, 2);     *)
+(* a write of request w stores the client-chosen label x + 10w; the server-allocated   *)
+(* labels carry symbolic names: split-supervoxel of request w gives 100+2w (split) and *)
+(* 101+2w (remainder), cleave 200+w; renumber targets the client-chosen 5000+10w.      *)
+VoxRegions == 1..5
+VoxBlocks == 1..3
+VoxBlockOf(r) == IF r \in {1, 2} THEN 1 ELSE IF r = 3 THEN 2 ELSE 3
+VoxSize(r) == IF r = 3 THEN 4096 ELSE 2048
+VoxIn(K) == {r \in VoxRegions : VoxBlockOf(r) \in K}
+VoxU == 1..4 \cup {x + 10 * w : x \in {1000, 2000, 3000, 5000}, w \in 1..3} \cup 102..107 \cup 201..203
+VoxSVU == VoxU \ (201..203 \cup {5000 + 10 * w : w \in 1..3})    \* ids that can be supervoxels (domain of GET mapping)
+VoxCount(svf, s, b) == SumSeq([r \in VoxRegions |-> IF svf[r] = s /\ VoxBlockOf(r) = b THEN VoxSize(r) ELSE 0])
+VoxDerived(svf, mpf) ==
+    {[l |-> mpf[s], s |-> s, b |-> b, n |-> VoxCount(svf, s, b)] :
+        <<s, b>> \in {x \in ({svf[r] : r \in VoxRegions} \ {0}) \X VoxBlocks : VoxCount(svf, x[1], x[2]) > 0}}
+VoxPre == << [sv  |-> <<1, 1, 2, 3, 4>>,
+              mp  |-> [s \in VoxU |-> IF s = 2 THEN 1 ELSE s],
+              idx |-> VoxDerived(<<1, 1, 2, 3, 4>>, [s \in VoxU |-> IF s = 2 THEN 1 ELSE s])] >>
+VoxCatalog == <<
+   [k |-> "write", blocks |-> {1}, x |-> 1000, who |-> 0],
+   [k |-> "write", blocks |-> {1, 2}, x |-> 2000, who |-> 0],
+   [k |-> "write", blocks |-> {3}, x |-> 3000, who |-> 0],
+   [k |-> "splitsv", s |-> 1, body |-> 1, S |-> {1}, who |-> 0],
+   [k |-> "merge", t |-> 1, m |-> {3}, who |-> 0],
+   [k |-> "merge", t |-> 4, m |-> {1}, who |-> 0],
+   [k |-> "cleave", b |-> 1, s |-> {2}, who |-> 0],
+   [k |-> "renumber", old |-> 1, who |-> 0] >>
+VoxX(r) == r.x + 10 * r.who
+VoxSplit(r) == 100 + 2 * r.who
+VoxRemain(r) == 101 + 2 * r.who
+VoxNewBody(r) == 200 + r.who
+VoxRenum(r) == 5000 + 10 * r.who
+VoxSetSV(S, f) == [S EXCEPT !.sv = [q \in VoxRegions |-> f[q]]]
+VoxReindex(S) == [S EXCEPT !.idx = VoxDerived(S.sv, S.mp)]
+VoxSVSize(I, s) == SumSeq([b \in VoxBlocks |-> IF \E e \in I : e.s = s /\ e.b = b THEN (CHOOSE e \in I : e.s = s /\ e.b = b).n ELSE 0])
+VoxSplitSize(r) == SumSeq([q \in VoxRegions |-> IF q \in r.S THEN VoxSize(q) ELSE 0])
+\* split-supervoxel is accepted when the body index holds at least the posted number of voxels of the supervoxel
+VoxSplitOK(S, r) == S.mp[r.s] # 0 /\ IxOf(S.idx, S.mp[r.s]) # {} /\ VoxSplitSize(r) <= VoxSVSize(IxOf(S.idx, S.mp[r.s]), r.s)
+VoxSplitSV(f, r) == [q \in DOMAIN f |-> IF f[q] = r.s THEN (IF q \in r.S THEN VoxSplit(r) ELSE VoxRemain(r)) ELSE f[q]]
+VoxSplitMap(S, r, body) == [S EXCEPT !.mp = [s \in DOMAIN S.mp |-> IF s = r.s THEN 0 ELSE IF s \in {VoxSplit(r), VoxRemain(r)} THEN body ELSE S.mp[s]]]
+VoxMergeOK(S, r) == IxOf(S.idx, r.t) # {} /\ \A m \in r.m : IxOf(S.idx, m) # {}
+VoxRenumOK(S, r) == IxOf(S.idx, VoxRenum(r)) = {} /\ IxOf(S.idx, r.old) # {}
+VoxRenumMap(S, r, io) == [S EXCEPT !.mp = [s \in DOMAIN S.mp |-> IF s \in {e.s : e \in io} THEN VoxRenum(r) ELSE IF s = VoxRenum(r) THEN 0 ELSE S.mp[s]]]
+VoxCleaveMap(S, r) == [S EXCEPT !.mp = [s \in DOMAIN S.mp |-> IF s \in r.s THEN VoxNewBody(r) ELSE S.mp[s]]]
+VoxApply(r, S) ==
+    CASE r.k = "write" ->
+           Out(VoxReindex(VoxSetSV(S, [q \in VoxRegions |-> IF q \in VoxIn(r.blocks) THEN VoxX(r) ELSE S.sv[q]])), <<>>, TRUE)
+      [] r.k = "splitsv" ->
+           IF ~VoxSplitOK(S, r) \/ \E q \in r.S : S.sv[q] # r.s THEN Out(S, <<>>, FALSE)
+           ELSE Out(VoxReindex(VoxSplitMap(VoxSetSV(S, VoxSplitSV(S.sv, r)), r, S.mp[r.s])), <<>>, TRUE)
+      [] r.k = "merge" ->
+           IF ~VoxMergeOK(S, r) THEN Out(S, <<>>, FALSE)
+           ELSE Out(VoxReindex(McMergeMap(S, r, UNION {IxOf(S.idx, m) : m \in r.m})), <<>>, TRUE)
+      [] r.k = "cleave" ->
+           IF ~McCleaveOK(IxOf(S.idx, r.b), r) THEN Out(S, <<>>, FALSE)
+           ELSE Out(VoxReindex(VoxCleaveMap(S, r)), <<>>, TRUE)
+      [] r.k = "renumber" ->
+           IF ~VoxRenumOK(S, r) THEN Out(S, <<>>, FALSE)
+           ELSE Out(VoxReindex(VoxRenumMap(S, r, IxOf(S.idx, r.old))), <<>>, TRUE)
+\* the index changes of a write: per supervoxel and block, new count minus the count in the block as it was READ
+VoxChanges(r, old) ==
+    LET newf == [q \in VoxRegions |-> IF q \in VoxIn(r.blocks) THEN VoxX(r) ELSE 0]
+        oldf == [q \in VoxRegions |-> IF q \in VoxIn(r.blocks) THEN old[q] ELSE 0]
+        svs  == ({newf[q] : q \in VoxRegions} \cup {oldf[q] : q \in VoxRegions}) \ {0}
+    IN {[s |-> x[1], b |-> x[2], n |-> VoxCount(newf, x[1], x[2]) - VoxCount(oldf, x[1], x[2])] :
+          x \in {y \in svs \X r.blocks : VoxCount(newf, y[1], y[2]) # VoxCount(oldf, y[1], y[2])}}
+VoxMapLabel(M, s) == M[s]
+VoxCliAll(I, labs, ch) ==
+    LET okl == {l \in labs : CliOK(IxOf(I, l), l, ch)} IN
+    {e \in I : e.l \notin okl} \cup UNION {CliNew(IxOf(I, l), l, ch) : l \in okl}
+VoxExec(a, r, S, L) ==
+    CASE a = "w_rd"  -> Out(S, Upd(L, [old |-> S.sv]), TRUE)
+      \* the block is stored; the labels whose indices change are looked up in the mapping as it is now
+      [] a = "w_wr"  -> LET ch == VoxChanges(r, L.old) IN
+                        Out(VoxSetSV(S, [q \in VoxRegions |-> IF q \in VoxIn(r.blocks) THEN VoxX(r) ELSE S.sv[q]]),
+                            Upd(L, [ch |-> ch, labs |-> {VoxMapLabel(S.mp, c.s) : c \in ch} \ {0}]), TRUE)
+      \* ChangeLabelIndex of every label (each under its own shard lock; they touch disjoint entries)
+      [] a = "w_idx" -> Out([S EXCEPT !.idx = VoxCliAll(S.idx, L.labs, L.ch)], L, TRUE)
+      [] a = "s_rdIdx" -> IF ~VoxSplitOK(S, r) THEN Out(S, L, FALSE)
+                          ELSE Out(S, Upd(L, [body |-> S.mp[r.s], cur |-> IxOf(S.idx, S.mp[r.s])]), TRUE)
+      [] a = "s_rdBlk" -> IF \E q \in r.S : S.sv[q] # r.s THEN Out(S, L, FALSE) ELSE Out(S, Upd(L, [blk |-> S.sv]), TRUE)
+      \* the blocks of the supervoxel are written back from what was read
+      [] a = "s_wrBlk" -> LET B == {VoxBlockOf(q) : q \in {x \in VoxRegions : L.blk[x] = r.s}}
+                              nf == VoxSplitSV(L.blk, r) IN
+                          Out(VoxSetSV(S, [q \in VoxRegions |-> IF VoxBlockOf(q) \in B THEN nf[q] ELSE S.sv[q]]), L, TRUE)
+      [] a = "s_wrMap" -> Out(VoxSplitMap(S, r, L.body), L, TRUE)
+      [] a = "s_wrIdx" -> LET nf == VoxSplitSV(L.blk, r)
+                              keep == {e \in L.cur : e.s # r.s}
+                              add == {[l |-> L.body, s |-> x[1], b |-> x[2], n |-> VoxCount(nf, x[1], x[2])] :
+                                        x \in {y \in {VoxSplit(r), VoxRemain(r)} \X VoxBlocks : VoxCount(nf, y[1], y[2]) > 0}} IN
+                          Out([S EXCEPT !.idx = {e \in S.idx : e.l # L.body} \cup keep \cup add], L, TRUE)
+      [] a = "g_rdM" -> IF \E m \in r.m : IxOf(S.idx, m) = {} THEN Out(S, L, FALSE)
+                        ELSE Out(S, Upd(L, [im |-> UNION {IxOf(S.idx, m) : m \in r.m}]), TRUE)
+      [] a = "g_rdT" -> IF IxOf(S.idx, r.t) = {} THEN Out(S, L, FALSE) ELSE Out(S, Upd(L, [it |-> IxOf(S.idx, r.t)]), TRUE)
+      [] a = "g_wrMap" -> Out(McMergeMap(S, r, L.im), L, TRUE)
+      [] a = "g_rd2" -> Out(S, Upd(L, [im |-> UNION {IxOf(S.idx, m) : m \in r.m}, it |-> IxOf(S.idx, r.t)]), TRUE)
+      [] a = "g_wrT" -> Out(McMergeTarget(S, r, L.it, L.im), L, TRUE)
+      [] a = "g_delM" -> Out(McMergeDel(S, r), L, TRUE)
+      [] a = "c_rd"  -> IF ~McCleaveOK(IxOf(S.idx, r.b), r) THEN Out(S, L, FALSE) ELSE Out(S, Upd(L, [ib |-> IxOf(S.idx, r.b)]), TRUE)
+      [] a = "c_wr"  -> Out([S EXCEPT !.idx = {e \in S.idx : e.l # r.b} \cup {e \in L.ib : e.s \notin r.s}
+                                               \cup IxRelabel({e \in L.ib : e.s \in r.s}, VoxNewBody(r))], L, TRUE)
+      [] a = "c_wrMap" -> Out(VoxCleaveMap(S, r), L, TRUE)
+      [] a = "n_rd"  -> IF ~VoxRenumOK(S, r) THEN Out(S, L, FALSE) ELSE Out(S, Upd(L, [io |-> IxOf(S.idx, r.old)]), TRUE)
+      [] a = "n_wrMap" -> Out(VoxRenumMap(S, r, L.io), L, TRUE)
+      [] a = "n_wr"  -> Out([S EXCEPT !.idx = {e \in S.idx : e.l # VoxRenum(r)} \cup IxRelabel(L.io, VoxRenum(r))], L, TRUE)
+      [] a = "n_del" -> Out([S EXCEPT !.idx = {e \in S.idx : e.l # r.old}], L, TRUE)
+VoxDynLocks(a, r, S, L) == IF a = "w_idx" THEN {IdxLock(l) : l \in L.labs} ELSE {}
+\* The locking of the code (Data.voxelMu around every block read .. block write, Data.bodyMutMu around body
+\* mutations, the index shard lock around an index read-modify-write) is the intended one, except for the
+\* index changes of a voxel write: the code applies them from a goroutine that outlives the request and
+\* holds neither lock (known findings voxel-write-index-*); intended: they are applied before the write
+\* lets the next voxel or body mutation in.
+VoxProg(r) ==
+    CASE r.k = "write" ->
+           IF Locking = "intended"
+           THEN << Gate("start"), Acq({"lm.bodyMutMu"}), Acq({"lm.voxelMu"}), Do("w_rd"), Gate("labelmap.putChunk"), Do("w_wr"),
+                   Gate("labelmap.aggregateBlockChanges"), Dolk("w_idx"), Rel({"lm.voxelMu", "lm.bodyMutMu"}) >>
+           ELSE << Gate("start"), Acq({"lm.voxelMu"}), Do("w_rd"), Gate("labelmap.putChunk"), Do("w_wr"), Rel({"lm.voxelMu"}),
+                   Gate("labelmap.aggregateBlockChanges"), Dolk("w_idx") >>
+      [] r.k = "splitsv" ->
+           << Gate("start"), Acq({"lm.bodyMutMu"}), Acq({IdxLock(r.body)}), Do("s_rdIdx"), Acq({"lm.voxelMu"}), Do("s_rdBlk"),
+              Gate("labelmap.SplitSupervoxel"), Do("s_wrBlk"), Do("s_wrMap"), Do("s_wrIdx"),
+              Rel({"lm.voxelMu", IdxLock(r.body), "lm.bodyMutMu"}) >>
+      [] r.k = "merge" ->
+           << Gate("start"), Acq({"lm.bodyMutMu"}), Do("g_rdM"), Do("g_rdT"), Gate("labelmap.MergeLabels"),
+              Do("g_wrMap"), Acq(McIdxLocks(r)), Do("g_rd2"), Do("g_wrT"), Do("g_delM"), Rel(McIdxLocks(r)), Rel({"lm.bodyMutMu"}) >>
+      [] r.k = "cleave" ->
+           << Gate("start"), Acq({"lm.bodyMutMu"}), Acq({IdxLock(r.b)}), Do("c_rd"), Gate("labelmap.cleaveIndex"), Do("c_wr"),
+              Rel({IdxLock(r.b)}), Do("c_wrMap"), Rel({"lm.bodyMutMu"}) >>
+      [] r.k = "renumber" ->
+           << Gate("start"), Acq({"lm.bodyMutMu"}), Do("n_rd"), Gate("labelmap.RenumberLabels"), Do("n_wrMap"), Do("n_wr"), Do("n_del"),
+              Rel({"lm.bodyMutMu"}) >>
+\* GET mapping: the recorded body of a supervoxel that was ever remapped (0 = split away); an id without a
+\* mapping entry is its own body if the index of that body holds it, otherwise 0 (no such supervoxel)
+VoxMapRead(S, s) == IF S.mp[s] # s THEN S.mp[s] ELSE IF \E e \in S.idx : e.s = s /\ e.l = s THEN s ELSE 0
+VoxObs(S) == [sv  |-> {[r |-> q, s |-> S.sv[q]] : q \in VoxRegions},
+              idx |-> S.idx,
+              mp  |-> {[s |-> s, l |-> VoxMapRead(S, s)] : s \in {x \in VoxSVU : VoxMapRead(S, x) # 0}}]
+\* the observation in the shape of Labelmap.tla's Obs (what lmm.Compare reads through every endpoint)
+RECURSIVE SetSeqAsc(_)
+SetSeqAsc(T) == IF T = {} THEN <<>> ELSE LET x == CHOOSE y \in T : \A z \in T : y <= z IN <<x>> \o SetSeqAsc(T \ {x})
+VoxLmObs(S) ==
+    LET svs == {S.sv[q] : q \in VoxRegions} \ {0}
+        bodies == {S.mp[s] : s \in svs}
+        svsOf(b) == {s \in svs : S.mp[s] = b}
+        regsOf(b) == {q \in VoxRegions : S.sv[q] # 0 /\ S.mp[S.sv[q]] = b}
+        blocksOf(b) == {VoxBlockOf(q) : q \in regsOf(b)}
+        size(T) == SumSeq([q \in VoxRegions |-> IF q \in T THEN VoxSize(q) ELSE 0])
+    IN [sv |-> S.sv,
+        body |-> [q \in VoxRegions |-> IF S.sv[q] = 0 THEN 0 ELSE S.mp[S.sv[q]]],
+        nxt |-> 0,
+        bodies |-> [i \in 1..Cardinality(bodies) |->
+                      LET b == SetSeqAsc(bodies)[i] IN
+                      [label |-> b, size |-> size(regsOf(b)), svs |-> SetSeqAsc(svsOf(b)), regions |-> SetSeqAsc(regsOf(b)),
+                       blocks |-> SetSeqAsc(blocksOf(b)),
+                       index |-> [k \in 1..Cardinality(blocksOf(b)) |->
+                                    LET blk == SetSeqAsc(blocksOf(b))[k]
+                                        ss == {s \in svsOf(b) : VoxCount(S.sv, s, blk) > 0} IN
+                                    [block |-> blk, counts |-> [j \in 1..Cardinality(ss) |-> [sv |-> SetSeqAsc(ss)[j], n |-> VoxCount(S.sv, SetSeqAsc(ss)[j], blk)]]]]]],
+        svsizes |-> [i \in 1..Cardinality(svs) |-> [sv |-> SetSeqAsc(svs)[i], size |-> size({q \in VoxRegions : S.sv[q] = SetSeqAsc(svs)[i]})]]]
+
+-----------------------------------------------------------------------------
+(* annsync: element edits of an annotation instance against the label sync events of   *)
+(* the labelmap it is synced with (and a labelsz instance counting elements per body). *)
+(* Blocks 1..3 hold supervoxels 1..3; body 1 = supervoxels {1, 2}, body 3 = {3}.       *)
+(* Positions 1, 4 lie in block 1, position 2 in block 2, positions 3, 5 in block 3;    *)
+(* elements 1, 2 (tag 1) and 3 (tag 2) exist.  State: the stored copies                *)
+(*    blk  positions holding an element (block lists, primary)                         *)
+(*    lbl  entries [l, p]: the element list of body l holds position p                 *)
+(*    tg   entries [t, p]                                                               *)
+(*    cnt  labelsz count per body                                                      *)
+(*    mp   supervoxel -> body (the labelmap)                                           *)
+(* A label operation is the labelmap request (mapping change, acknowledged) followed   *)
+(* by its sync event, handled by the annotation's event goroutine (the asynchronous    *)
+(* tail of the request): the body lists are read, re-partitioned and written back.     *)
+AsPos == 1..5
+AsBlockOf(p) == IF p \in {1, 4} THEN 1 ELSE IF p = 2 THEN 2 ELSE 3
+AsTagOf(p) == IF p \in {3, 5} THEN 2 ELSE 1
+AsLU == {1, 2, 3} \cup 201..203
+AsBody(S, p) == S.mp[AsBlockOf(p)]
+AsPre == << [blk |-> {1, 2, 3},
+             lbl |-> {[l |-> 1, p |-> 1], [l |-> 1, p |-> 2], [l |-> 3, p |-> 3]},
+             tg  |-> {[t |-> 1, p |-> 1], [t |-> 1, p |-> 2], [t |-> 2, p |-> 3]},
+             cnt |-> [l \in AsLU |-> IF l = 1 THEN 2 ELSE IF l = 3 THEN 1 ELSE 0],
+             mp  |-> <<1, 1, 3>>] >>
+AsCatalog == <<
+   [k |-> "post", p |-> 4, who |-> 0],
+   [k |-> "post", p |-> 5, who |-> 0],
+   [k |-> "del", p |-> 1, who |-> 0],
+   \* (not in the catalog: DELETE of an element of the MERGED body, or POST of an element into the CLEAVED
+   \* supervoxel, between the acknowledgement of the label request and the handling of its sync event: the
+   \* handler then works on lists the edit could not know about - the element stays listed after its
+   \* deletion / is dropped from the new body's list - whatever lock it takes; the sequential meaning of
+   \* "label request + its event" is not available to an edit that arrives in between)
+   [k |-> "merge", t |-> 1, m |-> 3, who |-> 0],
+   [k |-> "cleave", b |-> 1, s |-> 2, who |-> 0] >>
+AsNew(r) == 200 + r.who
+AsL(I, l) == {e \in I : e.l = l}
+AsBump(c, l, n) == [c EXCEPT ![l] = @ + n]
+\* the writes of the requests, from the values they read
+AsPostWr(S, r, L, ll, tt, bb) ==
+    [S EXCEPT !.blk = {q \in S.blk : AsBlockOf(q) # AsBlockOf(r.p)} \cup bb \cup {r.p},
+              !.lbl = {e \in S.lbl : e.l # L} \cup ll \cup {[l |-> L, p |-> r.p]},
+              !.tg  = {e \in S.tg : e.t # AsTagOf(r.p)} \cup tt \cup {[t |-> AsTagOf(r.p), p |-> r.p]},
+              !.cnt = AsBump(S.cnt, L, IF [l |-> L, p |-> r.p] \in ll THEN 0 ELSE 1)]
+AsDelWrB(S, r, bb) == [S EXCEPT !.blk = {q \in S.blk : AsBlockOf(q) # AsBlockOf(r.p)} \cup (bb \ {r.p})]
+AsDelWrL(S, r, L, ll, tt) ==
+    [S EXCEPT !.lbl = {e \in S.lbl : e.l # L} \cup (ll \ {[l |-> L, p |-> r.p]}),
+              !.tg  = {e \in S.tg : e.t # AsTagOf(r.p)} \cup (tt \ {[t |-> AsTagOf(r.p), p |-> r.p]}),
+              !.cnt = AsBump(S.cnt, L, IF [l |-> L, p |-> r.p] \in ll THEN -1 ELSE 0)]
+AsMergeWr(S, r, lt, lm) ==
+    IF lm = {} THEN S
+    ELSE [S EXCEPT !.lbl = {e \in S.lbl : e.l \notin {r.t, r.m}} \cup lt \cup {[e EXCEPT !.l = r.t] : e \in lm},
+                   !.cnt = AsBump(AsBump(S.cnt, r.t, Cardinality(lm)), r.m, 0 - Cardinality(lm))]
+AsCleaveWr(S, r, lb, in) ==
+    IF lb = {} THEN S
+    ELSE LET mv == {e \in lb : e.p \in in} IN
+         [S EXCEPT !.lbl = {e \in S.lbl : e.l \notin {r.b, AsNew(r)}} \cup (lb \ mv) \cup {[e EXCEPT !.l = AsNew(r)] : e \in mv},
+                   !.cnt = AsBump(AsBump(S.cnt, AsNew(r), Cardinality(mv)), r.b, 0 - Cardinality(mv))]
+AsMap(S, f) == [S EXCEPT !.mp = [b \in 1..3 |-> f[b]]]
+AsBlkOf(S, p) == {q \in S.blk : AsBlockOf(q) = AsBlockOf(p)}
+AsTg(S, p) == {e \in S.tg : e.t = AsTagOf(p)}
+AsBodyHas(S, l) == \E b \in 1..3 : S.mp[b] = l
+AsApply(r, S) ==
+    CASE r.k = "post" -> Out(AsPostWr(S, r, AsBody(S, r.p), AsL(S.lbl, AsBody(S, r.p)), AsTg(S, r.p), AsBlkOf(S, r.p)), <<>>, TRUE)
+      [] r.k = "del"  -> IF r.p \notin S.blk THEN Out(S, <<>>, FALSE)
+                         ELSE Out(AsDelWrL(AsDelWrB(S, r, AsBlkOf(S, r.p)), r, AsBody(S, r.p), AsL(S.lbl, AsBody(S, r.p)), AsTg(S, r.p)), <<>>, TRUE)
+      [] r.k = "merge" -> IF ~AsBodyHas(S, r.t) \/ ~AsBodyHas(S, r.m) THEN Out(S, <<>>, FALSE)
+                          ELSE LET S1 == AsMap(S, [b \in 1..3 |-> IF S.mp[b] = r.m THEN r.t ELSE S.mp[b]]) IN
+                               Out(AsMergeWr(S1, r, AsL(S.lbl, r.t), AsL(S.lbl, r.m)), <<>>, TRUE)
+      [] r.k = "cleave" -> IF S.mp[r.s] # r.b \/ ~\E b \in 1..3 : b # r.s /\ S.mp[b] = r.b THEN Out(S, <<>>, FALSE)
+                           ELSE LET S1 == AsMap(S, [b \in 1..3 |-> IF b = r.s THEN AsNew(r) ELSE S.mp[b]]) IN
+                                Out(AsCleaveWr(S1, r, AsL(S.lbl, r.b), {q \in AsPos : AsBlockOf(q) = r.s}), <<>>, TRUE)
+AsExec(a, r, S, L) ==
+    CASE a = "p_rd"  -> LET lab == AsBody(S, r.p) IN
+                        Out(S, Upd(L, [lab |-> lab, ll |-> AsL(S.lbl, lab), tt |-> AsTg(S, r.p), bb |-> AsBlkOf(S, r.p)]), TRUE)
+      [] a = "p_wr"  -> Out(AsPostWr(S, r, L.lab, L.ll, L.tt, L.bb), L, TRUE)
+      [] a = "d_rdB" -> IF r.p \notin S.blk THEN Out(S, L, FALSE) ELSE Out(S, Upd(L, [bb |-> AsBlkOf(S, r.p)]), TRUE)
+      [] a = "d_wrB" -> Out(AsDelWrB(S, r, L.bb), L, TRUE)
+      [] a = "d_rdL" -> LET lab == AsBody(S, r.p) IN Out(S, Upd(L, [lab |-> lab, ll |-> AsL(S.lbl, lab), tt |-> AsTg(S, r.p)]), TRUE)
+      [] a = "d_wrL" -> Out(AsDelWrL(S, r, L.lab, L.ll, L.tt), L, TRUE)
+      [] a = "m_map" -> IF ~AsBodyHas(S, r.t) \/ ~AsBodyHas(S, r.m) THEN Out(S, L, FALSE)
+                        ELSE Out(AsMap(S, [b \in 1..3 |-> IF S.mp[b] = r.m THEN r.t ELSE S.mp[b]]), L, TRUE)
+      [] a = "y_rd"  -> Out(S, Upd(L, [lt |-> AsL(S.lbl, r.t), lm |-> AsL(S.lbl, r.m)]), TRUE)
+      [] a = "y_wr"  -> Out(AsMergeWr(S, r, L.lt, L.lm), L, TRUE)
+      [] a = "c_map" -> IF S.mp[r.s] # r.b \/ ~\E b \in 1..3 : b # r.s /\ S.mp[b] = r.b THEN Out(S, L, FALSE)
+                        ELSE Out(AsMap(S, [b \in 1..3 |-> IF b = r.s THEN AsNew(r) ELSE S.mp[b]]), L, TRUE)
+      \* the handler asks the labelmap which points of the body list lie in the cleaved supervoxels
+      [] a = "z_rd"  -> Out(S, Upd(L, [lb |-> AsL(S.lbl, r.b), in |-> {q \in AsPos : AsBlockOf(q) = r.s}]), TRUE)
+      [] a = "z_wr"  -> Out(AsCleaveWr(S, r, L.lb, L.in), L, TRUE)
+\* intended: a sync handler rewrites body lists under the lock the element edits hold (Data.editMu);
+\* the handlers of the code took no lock before the fix "annotation sync handlers take the edit lock"
+AsTail(body) == IF Locking = "intended" \/ AsHandlersLocked THEN << Acq({"ann.editMu"}) >> \o body \o << Rel({"ann.editMu"}) >> ELSE body
+AsProg(r) ==
+    CASE r.k = "post" -> << Gate("start"), Acq({"ann.editMu"}), Do("p_rd"), Gate("annotation.StoreElements"), Do("p_wr"), Rel({"ann.editMu"}) >>
+      [] r.k = "del"  -> << Gate("start"), Acq({"ann.editMu"}), Do("d_rdB"), Gate("annotation.DeleteElement"), Do("d_wrB"), Do("d_rdL"),
+                            Gate("annotation.DeleteElement.commit"), Do("d_wrL"), Rel({"ann.editMu"}) >>
+      [] r.k = "merge" -> << Gate("start"), Acq({"lm.bodyMutMu"}), Do("m_map"), Rel({"lm.bodyMutMu"}) >>
+                            \o AsTail(<< Do("y_rd"), Gate("annotation.sync.mergeLabels"), Do("y_wr") >>)
+      [] r.k = "cleave" -> << Gate("start"), Acq({"lm.bodyMutMu"}), Do("c_map"), Rel({"lm.bodyMutMu"}) >>
+                            \o AsTail(<< Do("z_rd"), Gate("annotation.sync.cleaveLabels"), Do("z_wr") >>)
+AsObs(S) == [blk |-> S.blk, lbl |-> S.lbl, tg |-> S.tg,
+             cnt |-> {[l |-> l, n |-> S.cnt[l]] : l \in {x \in AsLU : S.cnt[x] # 0}},
+             mp  |-> {[s |-> b, l |-> S.mp[b]] : b \in 1..3}]
+
+-----------------------------------------------------------------------------
+(* wc: a write to an open version raced with the commit of that version (property C02: *)
+(* what is readable at a committed version never changes).  Three requests: a write    *)
+(* (keyvalue key / labelmap mutating voxel write / annotation element), the commit,    *)
+(* and a reader that first asks whether the version is committed and then reads the    *)
+(* content.  State: val = the primary content (0 / 1 = written), der = the derived     *)
+(* content the write's background work maintains (labelmap body index, labelsz count), *)
+(* com = committed, seen = what the reader saw.  The write is refused on a committed   *)
+(* version; a reader that saw the version committed must have seen its final content.  *)
+WcPre == << [val |-> 0, der |-> 0, com |-> FALSE, seen |-> {}] >>
+WcCatalog == << [k |-> "write", kind |-> "kv", who |-> 0], [k |-> "write", kind |-> "lm", who |-> 0],
+                [k |-> "write", kind |-> "ann", who |-> 0], [k |-> "commit", who |-> 0], [k |-> "read", who |-> 0] >>
+WcApply(r, S) ==
+    CASE r.k = "write"  -> IF S.com THEN Out(S, <<>>, FALSE) ELSE Out([S EXCEPT !.val = 1, !.der = 1], <<>>, TRUE)
+      [] r.k = "commit" -> IF S.com THEN Out(S, <<>>, FALSE) ELSE Out([S EXCEPT !.com = TRUE], <<>>, TRUE)
+      [] r.k = "read"   -> Out([S EXCEPT !.seen = @ \cup {[c |-> S.com, v |-> S.val, d |-> S.der]}], <<>>, TRUE)
+WcExec(a, r, S, L) ==
+    CASE a = "a_chk"  -> Out(S, L, ~S.com)                          \* the mutation gate at request entry
+      [] a = "w_val"  -> Out([S EXCEPT !.val = 1], L, TRUE)
+      [] a = "w_der"  -> Out([S EXCEPT !.der = 1], L, TRUE)
+      [] a = "w_both" -> Out([S EXCEPT !.val = 1, !.der = 1], L, TRUE)
+      [] a = "c_chk"  -> Out(S, L, ~S.com)
+      [] a = "c_set"  -> Out([S EXCEPT !.com = TRUE], L, TRUE)
+      [] a = "r_flag" -> Out(S, Upd(L, [c |-> S.com]), TRUE)
+      [] a = "r_val"  -> Out([S EXCEPT !.seen = @ \cup {[c |-> L.c, v |-> S.val, d |-> S.der]}], L, TRUE)
+\* intended: a mutation holds the version open (node.mut) from its admission until everything it started
+\* has been applied; commit takes the same lock.  code: WcAdmissionLocked = the request holds it until its
+\* handler returns (fix "commit waits for admitted mutations"); work left to background goroutines (labelmap
+\* index changes, annotation -> labelsz events) is outside it (known finding commit-does-not-wait-for-background-work)
+WcHold(body, tail) ==
+    IF Locking = "intended" THEN << Acq({"node.mut"}) >> \o body \o tail \o << Rel({"node.mut"}) >>
+    ELSE IF WcAdmissionLocked THEN << Acq({"node.mut"}) >> \o body \o << Rel({"node.mut"}) >> \o tail
+    ELSE body \o tail
+WcProg(r) ==
+    CASE r.k = "write" /\ r.kind = "kv" ->
+           << Gate("start") >> \o WcHold(<< Do("a_chk"), Gate("server.mutationAdmitted"), Do("w_both") >>, << >>)
+      [] r.k = "write" /\ r.kind = "lm" ->
+           << Gate("start") >> \o WcHold(<< Do("a_chk"), Gate("server.mutationAdmitted"), Acq({"lm.voxelMu"}), Gate("labelmap.putChunk"),
+                                            Do("w_val"), Rel({"lm.voxelMu"}) >>,
+                                         << Gate("labelmap.aggregateBlockChanges"), Do("w_der") >>)
+      [] r.k = "write" /\ r.kind = "ann" ->
+           << Gate("start") >> \o WcHold(<< Do("a_chk"), Gate("server.mutationAdmitted"), Acq({"ann.editMu"}), Gate("annotation.StoreElements"),
+                                            Do("w_both"), Rel({"ann.editMu"}) >>,
+                                         << >>)   \* (the labelsz count follows by an event no gate controls: not observed here)
+      [] r.k = "commit" ->
+           << Gate("start") >> \o (IF Locking = "intended" \/ WcAdmissionLocked
+                                   THEN << Do("c_chk"), Gate("datastore.commit"), Acq({"node.mut"}), Do("c_set"), Rel({"node.mut"}) >>
+                                   ELSE << Do("c_chk"), Gate("datastore.commit"), Do("c_set") >>)
+      [] r.k = "read" -> << Gate("start"), Do("r_flag"), Do("r_val") >>
+\* observation: the final content and whether every reader that saw the version committed saw exactly it
+\* (what a reader sees of an OPEN version while a write is in progress is not constrained)
+WcObs(S) == [val |-> S.val, der |-> S.der, com |-> S.com,
+             frozen |-> \A x \in S.seen : x.c => (x.v = S.val /\ x.d = S.der)]
+
+-----------------------------------------------------------------------------
 Catalog(t) == CASE t = "kv" -> KvCatalog [] t = "ann" -> AnnCatalog [] t = "lm" -> LmCatalog [] t = "ver" -> VerCatalog
                 [] t = "nj" -> NjCatalog [] t = "nl" -> NlCatalog [] t = "mut" -> MutCatalog [] t = "cli" -> CliCatalog
+                [] t = "mcli" -> McCatalog [] t = "vox" -> VoxCatalog [] t = "annsync" -> AsCatalog [] t = "wc" -> WcCatalog
 PreSeq(t, n) == CASE t = "kv" -> KvPre [] t = "ann" -> AnnPre [] t = "lm" -> <<LmPreOf(5, 5 + n)>> [] t = "ver" -> VerPre
                   [] t = "nj" -> NjPre [] t = "nl" -> NlPre [] t = "mut" -> MutPre [] t = "cli" -> CliPre
+                  [] t = "mcli" -> McPre [] t = "vox" -> VoxPre [] t = "annsync" -> AsPre [] t = "wc" -> WcPre
 PreStates(t, n) == {PreSeq(t, n)[i] : i \in 1..Len(PreSeq(t, n))}
 Apply(t, r, S) == CASE t = "kv" -> KvApply(r, S) [] t = "ann" -> AnnApply(r, S) [] t = "lm" -> LmApply(r, S)
                     [] t = "ver" -> VerApply(r, S) [] t = "nj" -> NjApply(r, S) [] t = "nl" -> NlApply(r, S)
                     [] t = "mut" -> MutApply(r, S) [] t = "cli" -> CliApply(r, S)
+                    [] t = "mcli" -> McApply(r, S) [] t = "vox" -> VoxApply(r, S) [] t = "annsync" -> AsApply(r, S) [] t = "wc" -> WcApply(r, S)
 Exec(t, a, r, S, L) == CASE t = "kv" -> KvExec(a, r, S, L) [] t = "ann" -> AnnExec(a, r, S, L) [] t = "lm" -> LmExec(a, r, S, L)
                          [] t = "ver" -> VerExec(a, r, S, L) [] t = "nj" -> NjExec(a, r, S, L) [] t = "nl" -> NlExec(a, r, S, L)
                          [] t = "mut" -> MutExec(a, r, S, L) [] t = "cli" -> CliExec(a, r, S, L)
+                         [] t = "mcli" -> McExec(a, r, S, L) [] t = "vox" -> VoxExec(a, r, S, L) [] t = "annsync" -> AsExec(a, r, S, L) [] t = "wc" -> WcExec(a, r, S, L)
 Prog(t, r) == CASE t = "kv" -> KvProg(r) [] t = "ann" -> AnnProg(r) [] t = "lm" -> LmProg(r) [] t = "ver" -> VerProg(r)
                 [] t = "nj" -> NjProg(r) [] t = "nl" -> NlProg(r) [] t = "mut" -> MutProg(r) [] t = "cli" -> CliProg(r)
+                [] t = "mcli" -> McProg(r) [] t = "vox" -> VoxProg(r) [] t = "annsync" -> AsProg(r) [] t = "wc" -> WcProg(r)
 Obs(t, S) == CASE t = "kv" -> KvObs(S) [] t = "ann" -> AnnObs(S) [] t = "lm" -> LmObs(S) [] t = "ver" -> VerObs(S)
                [] t = "nj" -> NjObs(S) [] t = "nl" -> NlObs(S) [] t = "mut" -> MutObs(S) [] t = "cli" -> CliObs(S)
+               [] t = "mcli" -> McObs(S) [] t = "vox" -> VoxObs(S) [] t = "annsync" -> AsObs(S) [] t = "wc" -> WcObs(S)
+\* locks an atomic step needs (instruction "dolk"): taken and released within the step
+DynLocks(t, a, r, S, L) == IF t = "vox" THEN VoxDynLocks(a, r, S, L) ELSE {}
+\* the full read set of the final state, for templates that have one (compared through lmm.Compare)
+LmObsOf(t, S) == IF t = "vox" THEN VoxLmObs(S) ELSE <<>>
 
 -----------------------------------------------------------------------------
 (* Atomic (serial) executions. *)
@@ -340,6 +793,11 @@ Inv_C11_Serializable ==
 \* weaker reading used for diagnostics when some request was refused: the acknowledged requests
 \* plus any subset of the refused ones, applied atomically in some order
 Explained == \E T \in SUBSET Procs : Accepted \subseteq T /\ Obs(tpl, st) \in SerialFinals(tpl, rq, T, pre)
+\* "no derived index disagrees with its primary data": the stored body indices are the voxel counts
+Inv_C11_IndexMatchesVoxels == (tpl = "vox" /\ AllDone /\ Accepted = Procs) => st.idx = VoxDerived(st.sv, st.mp)
+\* Property C02 on the model: whoever saw the version committed saw its final content
+Inv_C02_CommittedFrozen ==
+    (tpl = "wc" /\ AllDone) => \A x \in st.seen : x.c => (x.v = st.val /\ x.d = st.der)
 \* Property C12 (concurrent allocation): identifiers handed out are pairwise distinct
 Inv_C12_Unique ==
     /\ tpl = "nl"  => \A x, y \in st.rets : x.who # y.who => (x.e < y.b \/ y.e < x.b)
@@ -351,7 +809,9 @@ Inv_C12_Unique ==
 P(p) == Prog(tpl, rq[p])
 Instr(p) == P(p)[pc[p]]
 HeldByOther(L, p) == \E l \in L : \E q \in Procs \ {p} : <<l, q>> \in lk
-CanStep(p) == mode[p] = "run" /\ (Instr(p).i = "acq" => ~HeldByOther(Instr(p).l, p))
+CanStep(p) == /\ mode[p] = "run"
+              /\ Instr(p).i = "acq" => ~HeldByOther(Instr(p).l, p)
+              /\ Instr(p).i = "dolk" => ~HeldByOther(DynLocks(tpl, Instr(p).a, rq[p], st, loc[p]), p)
 ModeAt(p, k) == IF k > Len(P(p)) THEN "done" ELSE IF P(p)[k].i = "gate" THEN "parked" ELSE "run"
 Advance(p) ==
     /\ pc' = [pc EXCEPT ![p] = pc[p] + 1]
@@ -372,7 +832,7 @@ Step(p) ==
                              /\ Advance(p) /\ UNCHANGED <<st, loc>>
          [] ins.i = "rel" -> /\ lk' = lk \ {<<l, p>> : l \in ins.l}
                              /\ Advance(p) /\ UNCHANGED <<st, loc>>
-         [] ins.i = "do"  -> LET x == Exec(tpl, ins.a, rq[p], st, loc[p]) IN
+         [] ins.i \in {"do", "dolk"} -> LET x == Exec(tpl, ins.a, rq[p], st, loc[p]) IN
                              /\ st' = x.st
                              /\ loc' = [loc EXCEPT ![p] = x.loc]
                              /\ IF x.ok THEN Advance(p) /\ UNCHANGED lk
@@ -420,8 +880,11 @@ CaseKey == [tpl |-> tpl, rq |-> rq, pre |-> Obs(tpl, pre)]
 EmitInv ==
     /\ (Emit /\ sched = <<>> /\ \A p \in Procs : pc[p] = 1) =>
          PrintT(ToJson([type |-> "case", key |-> CaseKey,
-                        progs |-> [p \in Procs |-> [j \in 1..Len(P(p)) |-> IF P(p)[j].i = "gate" THEN P(p)[j].site ELSE P(p)[j].i]],
-                        serial |-> {[t |-> T, finals |-> SerialFinals(tpl, rq, T, pre)] : T \in SUBSET Procs}]))
+                        tuple |-> [p \in Procs |-> CHOOSE i \in 1..Len(Catalog(tpl)) : [Catalog(tpl)[i] EXCEPT !.who = p] = rq[p]],
+                        progs |-> [p \in Procs |-> [j \in 1..Len(P(p)) |-> IF P(p)[j].i = "gate" THEN P(p)[j].site ELSE IF P(p)[j].i = "dolk" THEN "do" ELSE P(p)[j].i]],
+                        serial |-> {[t |-> T, finals |-> SerialFinals(tpl, rq, T, pre)] : T \in SUBSET Procs},
+                        lm |-> IF LmObsOf(tpl, pre) = <<>> THEN {}
+                               ELSE {[f |-> Obs(tpl, F), lm |-> LmObsOf(tpl, F)] : F \in {ApplySeq(tpl, rq, o, pre) : o \in PermsOf(Procs)}}]))
     /\ (Emit /\ AllDone) =>
          PrintT(ToJson([type |-> "end", key |-> CaseKey, sched |-> sched, accepted |-> Accepted,
                         final |-> Obs(tpl, st),
